@@ -299,6 +299,10 @@ func (s *BaseNodeService) executeOperation(operation *types.Operation) error {
 		if err != nil {
 			return fmt.Errorf("failed to get fsm instance during operation processing: %w", err)
 		}
+		// (a reinit message whose replay stopped early leaves a round that never got there)
+		if fsm.FSMDump().Payload.DKGProposalPayload == nil {
+			return fmt.Errorf("round %s has not reached the key generation, there is no polynomial to restore", dkgID)
+		}
 		fsm.FSMDump().Payload.DKGProposalPayload.PubPolyBz = operation.ExtraData
 		dump, err := fsm.Dump()
 		if err != nil {
